@@ -37,8 +37,9 @@ TAfter   == IsEvent("AfterClose") /\ ~open
             /\ UNCHANGED <<open, lost>>
 \* the same client allocates again (KeepAlive!Reopen): from here on the new allocation must stay
 TReopen  == IsEvent("Reopen") /\ ~open /\ open' = TRUE /\ UNCHANGED lost
+TNote    == IsEvent("Note") /\ UNCHANGED <<open, lost>>
 TEnd     == IsEvent("End") /\ UNCHANGED <<open, lost>>
-TNext == TReset \/ TProbe \/ TEv \/ TClose \/ TAfter \/ TReopen \/ TEnd
+TNext == TReset \/ TProbe \/ TEv \/ TClose \/ TAfter \/ TReopen \/ TNote \/ TEnd
 TSpec == TInit /\ [][TNext]_tvars
 
 Progress == TLCSet(1, IF l > TLCGet(1) THEN l ELSE TLCGet(1))
